@@ -33,17 +33,18 @@ void Resource::lock(OpType opType) {
 
     if (m_queue.empty() && (m_activeOp == OpType::None || (m_activeOp == opType && opType == OpType::Read))) {
         m_activeOp = opType;
+        ++m_activeCount;
     } else {
         auto id = m_idCounter++;
 
         enqueue(opType);
 
+        // the whole batch this request belongs to is counted
+        // in `select()` at the moment it gets admitted
         m_cv.wait(lock, [id, this] {
             return id < m_upperUnlockBound;
         });
     }
-
-    ++m_activeCount;
 }
 
 void Resource::unlock(OpType opType) {
@@ -87,7 +88,10 @@ void Resource::select() {
     auto op = m_queue.front();
     m_queue.pop_front();
 
+    // count all admitted requests right away: they may wake up
+    // later than the resource gets unlocked by their siblings
     m_activeOp = op.type;
+    m_activeCount = static_cast<size_t>(op.upperBound - m_upperUnlockBound);
     m_upperUnlockBound = op.upperBound;
 }
 } // tulz::rwp
